@@ -267,7 +267,7 @@ type c31XML struct {
 }
 
 func runC31(args []string) {
-	f := verifx.ParseFlags("c31", args, 110, 400)
+	f := verifx.ParseFlags("c31", args, 220, 400)
 	out := verifx.NewOut()
 	base := filepath.Join(f.Scratch, "c31")
 	verifx.Check(os.RemoveAll(base))
@@ -324,7 +324,7 @@ func runC31(args []string) {
 		if cfg.pItem > 0 {
 			az.pItem = cfg.pItem
 		}
-		rec := newC31Rec(st.Storage, log)
+		rec := c31NewRec(st.Storage, log)
 		var handler http.Handler
 		if hooks {
 			handler = server.SetupServer(nil, "eu-central-1", c31API, c31Website, c31AuthzHooks{az}, rec)
@@ -496,22 +496,38 @@ func (c *c31Case) exec(out *verifx.Out, handler http.Handler, log *c31Log, az *c
 	}
 	sort.Strings(toks)
 	isObjectBody := (rw.Code == 200 || rw.Code == 206) && len(respBody) >= 3 && rw.Header().Get("Accept-Ranges") == "bytes"
+	holds := func(tok string, o c31Obj) bool {
+		for _, h := range c.tokens[tok] {
+			if h == o {
+				return true
+			}
+		}
+		return false
+	}
 	for _, tok := range toks {
-		// the marker itself, or (ranged reads) a slice of the content that carries it
-		if !bytes.Contains(respBody, []byte(tok)) && !(isObjectBody && bytes.Contains(c.contents[tok], respBody)) {
+		holders := c.tokens[tok]
+		if bytes.Contains(respBody, []byte(tok)) {
+			// the marker itself: name the holder the handler actually read, else any holder
+			pick := holders[0]
+			for _, g := range gets {
+				if holds(tok, g) {
+					pick = g
+					break
+				}
+			}
+			out.Line("leak %s %s", verifx.HexS(pick.bucket), verifx.HexS(pick.key))
 			continue
 		}
-		holders := c.tokens[tok]
-		pick := holders[0]
-		found := false
-		for _, g := range gets { // prefer the holder the handler actually read
-			for _, h := range holders {
-				if h == g && !found {
-					pick, found = h, true
+		// a ranged read returns a slice that may not contain the marker (and short slices occur in
+		// many objects): attribute it only to an object the handler read through storage.GetObject
+		if isObjectBody && bytes.Contains(c.contents[tok], respBody) {
+			for _, g := range gets {
+				if holds(tok, g) {
+					out.Line("leak %s %s", verifx.HexS(g.bucket), verifx.HexS(g.key))
+					break
 				}
 			}
 		}
-		out.Line("leak %s %s", verifx.HexS(pick.bucket), verifx.HexS(pick.key))
 	}
 	// listed items
 	if rw.Code == 200 && bytes.HasPrefix(bytes.TrimSpace(respBody), []byte("<")) {
